@@ -178,15 +178,10 @@ impl FXRates {
                 self.fx_array = fx_array;
                 Ok(())
             }
-            (ADOrder::One, NumberArray2::Dual2(arr)) => {
-                let n: usize = arr.len_of(Axis(0));
-                let fx_array = NumberArray2::Dual(
-                    Array2::<Dual>::from_shape_vec(
-                        (n, n),
-                        arr.clone().into_iter().map(|d| d.into()).collect(),
-                    )
-                    .unwrap(),
-                );
+            (ADOrder::One, NumberArray2::Dual2(_)) => {
+                // rebuild the derivatives: the first order state is always a function of the
+                // quotes alone, so it equals the state rebuilt on deserialization
+                let fx_array = create_fx_array(&self.currencies, &self.fx_rates, ADOrder::One)?;
                 self.fx_array = fx_array;
                 Ok(())
             }
